@@ -465,18 +465,20 @@ def visitStmt (σ : St) : Stmt → St
     let σ := readExpr σ stop
     let σ := match step with | .some e => readExpr σ e | .none => σ
     let σ := openScope σ
-    let σ := defineName σ v ⟨v.idx, v.idx⟩
-    let σ := writeName σ v
-    let σ := openScope σ
+    -- the loop variable is defined when the body block is entered (`pending_loops`), after the
+    -- closures of the control expressions have been visited
     let σ := visitExpr σ start
     let σ := visitExpr σ stop
     let σ := match step with | .some e => visitExpr σ e | .none => σ
+    let σ := defineName σ v ⟨v.idx, v.idx⟩
+    let σ := writeName σ v
+    let σ := openScope σ
     closeScope (closeScope (visitBlock σ b))
   | .genFor _ names es b =>
     let σ := readExprs σ es
     let σ := openScope σ
-    let σ := defineAndWrite σ names
     let σ := visitExprs σ es
+    let σ := defineAndWrite σ names
     closeScope (visitBlock σ b)
   | .func _ name body =>
     match name.names with
